@@ -1,7 +1,7 @@
 (* C01 — Mesh cells tile the region; index<->coordinate maps are mutually inverse.
    This file holds ONLY statements, each closed by [exact] of a lemma proved in proofs/,
    followed by Print Assumptions. *)
-From DF Require Import Prelude Constants_gen Region Mesh C01_axis C01_nd C01_lattice C01_tiling.
+From DF Require Import Prelude Constants_gen Region Mesh C01_axis C01_nd C01_lattice C01_tiling Check_C01 C01_sound.
 Open Scope Q_scope.
 
 (* centres are pmin + (i + 1/2) * cell, cell = edges / n *)
@@ -139,3 +139,49 @@ Theorem C01_tiling_unique : forall m : mesh, wf_mesh m -> forall (p : list Q) (i
   in_cell m i p -> in_cell m j p -> i = j.
 Proof. exact tiling_unique. Qed.
 Print Assumptions C01_tiling_unique.
+
+(* ---- what the constructors accept is well-formed: every theorem above (stated for wf_mesh m)
+   applies to every mesh Region(p1, p2) / Mesh(region, n) accept.  The bound on the number of
+   dimensions concerns only the DEFAULT dimension names: the model writes them "x<digit>", which is
+   the implementation's f"x{i}" up to ten dimensions. *)
+Theorem C01_region_constructor_wf : forall p1 p2 ds us tf_ r,
+  mk_region p1 p2 ds us tf_ = OK r -> 0 <= tf_ ->
+  (ds = None -> (length p1 <= 10)%nat) -> wf_region r.
+Proof. exact mk_region_wf. Qed.
+Print Assumptions C01_region_constructor_wf.
+Theorem C01_mesh_constructor_wf : forall r n_ m, wf_region r -> mk_mesh_n r n_ = OK m -> wf_mesh m.
+Proof. exact mk_mesh_n_wf. Qed.
+Print Assumptions C01_mesh_constructor_wf.
+Theorem C01_build_wf : forall p1 p2 n_ tf_ m,
+  build p1 p2 n_ tf_ = OK m -> 0 <= tf_ -> (length p1 <= 10)%nat -> wf_mesh m.
+Proof. exact build_wf. Qed.
+Print Assumptions C01_build_wf.
+
+(* ---- the tie, proved (exact regime): a shard case that evaluates to true certifies that the
+   OBSERVED output is the model's value on the observed input *)
+Theorem C01_check_index2point_sound : forall p1 p2 n_ tf_ i q,
+  check_C01 (CI2P true p1 p2 n_ tf_ i (Some q)) = true ->
+  exists m p, build p1 p2 n_ tf_ = OK m /\ index2point m i = OK p /\ Forall2 Qeq p q.
+Proof. exact check_i2p_sound. Qed.
+Print Assumptions C01_check_index2point_sound.
+Theorem C01_check_index2point_reject_sound : forall p1 p2 n_ tf_ i,
+  check_C01 (CI2P true p1 p2 n_ tf_ i None) = true ->
+  exists m e, build p1 p2 n_ tf_ = OK m /\ index2point m i = Err e.
+Proof. exact check_i2p_reject_sound. Qed.
+Print Assumptions C01_check_index2point_reject_sound.
+Theorem C01_check_point2index_sound : forall p1 p2 n_ tf_ p obs_in j,
+  check_C01 (CP2I true p1 p2 n_ tf_ p obs_in (Some j)) = true ->
+  exists m, build p1 p2 n_ tf_ = OK m /\ point2index m p = OK j /\ contains_pt (reg m) p = obs_in.
+Proof. exact check_p2i_sound. Qed.
+Print Assumptions C01_check_point2index_sound.
+(* transfer: an accepted observed centre belongs to a well-formed mesh and maps back to its index *)
+Theorem C01_accepted_centre_roundtrip : forall p1 p2 n_ tf_ i q,
+  check_C01 (CI2P true p1 p2 n_ tf_ i (Some q)) = true -> 0 <= tf_ -> (length p1 <= 10)%nat ->
+  exists m p, build p1 p2 n_ tf_ = OK m /\ wf_mesh m /\ index2point m i = OK p /\
+              Forall2 Qeq p q /\ point2index m p = OK i.
+Proof. exact accepted_centre_roundtrip. Qed.
+Print Assumptions C01_accepted_centre_roundtrip.
+Example C01_accepted_centre_instance :
+  check_C01 (CI2P true [0; 0] [4; 3] [4; 2]%Z (1 # 1000000000000) [3; 0]%Z (Some [7 # 2; 3 # 4])) = true.
+Proof. exact accepted_centre_instance. Qed.
+Print Assumptions C01_accepted_centre_instance.
